@@ -119,6 +119,12 @@ package vm
 // a failed take is an insufficient-funds error, and the step reports whether the program is over
 //@   ensures opIs(m, program.OP_TAKE) && ret1 != nil && old(typeis(top(m, 0), "machine.Monetary") && typeis(top(m, 1), "machine.Funding") && as(top(m, 0), "machine.Monetary").Asset == as(top(m, 1), "machine.Funding").Asset) ==> typeis(ret1, "*machine.ErrInsufficientFund")
 //@   ensures ret1 != nil ==> ret0
+//@   ensures m.Program == old(m.Program) && m.UnresolvedResources == old(m.UnresolvedResources) // C08: the (possibly cached, shared) program is never written
+// C08: arithmetic is exact on arbitrarily large integers
+//@   ensures ret1 == nil && opIs(m, program.OP_IADD) && old(len(m.Stack)) >= 2 ==> val(as(top(m, 0), "*machine.MonetaryInt")) == old(val(as(top(m, 1), "*machine.MonetaryInt")) + val(as(top(m, 0), "*machine.MonetaryInt"))) // C08
+//@   ensures ret1 == nil && opIs(m, program.OP_ISUB) && old(len(m.Stack)) >= 2 ==> val(as(top(m, 0), "*machine.MonetaryInt")) == old(val(as(top(m, 1), "*machine.MonetaryInt")) - val(as(top(m, 0), "*machine.MonetaryInt"))) // C08
+//@   ensures ret1 == nil && opIs(m, program.OP_MONETARY_ADD) && old(len(m.Stack)) >= 2 ==> val(as(top(m, 0), "machine.Monetary").Amount) == old(val(as(top(m, 1), "machine.Monetary").Amount) + val(as(top(m, 0), "machine.Monetary").Amount)) && as(top(m, 0), "machine.Monetary").Asset == old(as(top(m, 1), "machine.Monetary").Asset) // C08
+//@   ensures ret1 == nil && opIs(m, program.OP_MONETARY_SUB) && old(len(m.Stack)) >= 2 ==> val(as(top(m, 0), "machine.Monetary").Amount) == old(val(as(top(m, 1), "machine.Monetary").Amount) - val(as(top(m, 0), "machine.Monetary").Amount)) // C08
 //@   modifies Machine.Stack, Machine.P, Machine.Postings, map[machine.Asset]*machine.MonetaryInt, map[string]machine.Value, map[machine.AccountAddress]map[string]machine.Value, machine.Funding.*, box machine.Allotment, box int
 //@   loop 1 invariant stackOK(m.Stack) && (forall a machine.AccountAddress, t machine.Asset :: live(m.Stack, a, t) == old(live(m.Stack, a, t)))
 //@   loop 2 invariant stackOK(m.Stack) && fundingsOK(fundings_rev[:i]) && 1 <= i && i <= n && len(fundings_rev) == n
@@ -130,6 +136,7 @@ package vm
 //@   loop 5 invariant forall a machine.AccountAddress, t machine.Asset :: sentv(m.Postings, a, t) == old(sentv(m.Postings, a, t)) + ite(funding.Asset == t, sumFor(funding.Parts[:rangeindex+1], a), 0)
 //@   loop 5 invariant forall a machine.AccountAddress, t machine.Asset :: recvd(m.Postings, a, t) == old(recvd(m.Postings, a, t)) + ite(funding.Asset == t && dest == a, total(funding.Parts[:rangeindex+1]), 0)
 //@   property C01 C03
+//@   alsofor C08
 
 // Execute: the invariant of tick holds at every step, so D never increases over a whole run.
 //@ func (*vm.Machine).Execute
@@ -137,9 +144,11 @@ package vm
 //@   modifies Machine.Stack, Machine.P, Machine.Postings, map[machine.Asset]*machine.MonetaryInt, map[string]machine.Value, map[machine.AccountAddress]map[string]machine.Value, machine.Funding.*, box machine.Allotment, box int, chan
 //@   ensures err == nil ==> minv(m) && (forall a machine.AccountAddress, t machine.Asset :: a != "world" ==> D(m, a, t) <= old(D(m, a, t)))
 //@   ensures err == nil ==> len(m.Stack) == 0
+//@   ensures m.Program == old(m.Program) && m.UnresolvedResources == old(m.UnresolvedResources) // C08: the (possibly cached, shared) program is never written
 //@   loop 1 invariant minv(m) && sameDomain(m) && m.Balances != nil && len(m.Resources) == len(m.UnresolvedResources)
 //@   loop 1 invariant forall a machine.AccountAddress, t machine.Asset :: a != "world" ==> D(m, a, t) <= old(D(m, a, t))
 //@   property C01 C03
+//@   alsofor C08
 
 // Run: an execution error yields no result; otherwise the postings handed to the ledger are the machine's, field by field, in order.
 //@ func vm.Run
@@ -186,7 +195,10 @@ package vm
 //@   property C01 C03
 
 //@ func (*vm.Machine).SetVarsFromJSON
+//@   requires m != nil
+//@   ensures m.Program == old(m.Program) && m.UnresolvedResources == old(m.UnresolvedResources) // C08: the (possibly cached, shared) program is never written
 //@   modifies Machine.Vars, map[string]string, map[string]machine.Value
+//@   alsofor C08
 
 // resource and balance resolution read the store and fill the machine; frame: only the machine's own tables
 // C12: a balance() variable resolves to a monetary whose amount is filled in by ResolveBalances; until then it is
@@ -199,8 +211,10 @@ package vm
 //@   assumes forall n9 string :: has(m.Vars, n9) ==> !pendingBal(m.Vars[n9])
 //@   ensures err == nil ==> pendingRegistered(m) // C12
 //@   loop 1 invariant pendingRegistered(m) && m.UnresolvedResourceBalances == old(m.UnresolvedResourceBalances)
+//@   ensures m.Program == old(m.Program) && m.UnresolvedResources == old(m.UnresolvedResources) // C08: the (possibly cached, shared) program is never written
 //@   modifies Machine.resolveCalled, Machine.Resources, map[int]string, map[machine.Address]string
 //@   property C12
+//@   alsofor C08
 //@ func (*vm.Machine).ResolveBalances
 //@   requires m != nil && pendingRegistered(m)
 //@   ensures err == nil ==> forall i8 in 0..len(m.Resources) :: !pendingBal(m.Resources[i8]) // C12
@@ -209,8 +223,10 @@ package vm
 //@   loop 1 invariant forall i7 in 0..len(m.Resources) :: pendingBal(m.Resources[i7]) ==> has(m.UnresolvedResourceBalances, i7) && !in(i7, visited)
 //@   loop 2 invariant forall i6 in 0..len(m.Resources) :: !pendingBal(m.Resources[i6])
 //@   loop 3 invariant forall i5 in 0..len(m.Resources) :: !pendingBal(m.Resources[i5])
+//@   ensures m.Program == old(m.Program) && m.UnresolvedResources == old(m.UnresolvedResources) // C08: the (possibly cached, shared) program is never written
 //@   modifies Machine.Balances, Machine.Resources, map[machine.AccountAddress]map[machine.Asset]*machine.MonetaryInt, map[machine.Asset]*machine.MonetaryInt
 //@   property C12
+//@   alsofor C08
 
 // a monetary literal of a program always has an amount
 //@ typeinv program.Monetary: self.Amount != nil // C12
